@@ -63,8 +63,10 @@ def expected_actions(pkts):
     stored = {9: ('in/a', b'hello', 2, False, False, 9)}
     recd = set(r.msgId for r in w.reqs if r.kind == 'pub' and r.acked('PUBREC'))
     done = set()
-    out = []
+    groups = []
     for raw in pkts:
+        out = []
+        groups.append(out)
         p = rc.decode(raw, strict=True)
         t = p['type']
         if t == 'PUBLISH':
@@ -96,7 +98,7 @@ def expected_actions(pkts):
                 out.append(('fire', r.idx, 'ok', tuple((c & 0x7F, bool(c & 0x80)) for c in p['codes']), False)); done.add(r.idx)
             elif t == 'UNSUBACK' and r.kind == 'unsub':
                 out.append(('fire', r.idx, 'ok', r.msgId, False)); done.add(r.idx)
-    return out
+    return groups
 
 
 def check_reference(ctx, name, pkts, ref_obs):
@@ -108,7 +110,17 @@ def check_reference(ctx, name, pkts, ref_obs):
                        'history': [['stream', name], ['cuts', []]], 'scenario': {'name': 'ref', 'stream': name}})
         return
 
-    if ref_obs != exp:
+    # the order of the actions prompted by ONE packet (acknowledge / deliver) is not prescribed; across packets it is
+    groups, exp, pos, same = exp, [], 0, True
+    for g in groups:
+        got = ref_obs[pos:pos + len(g)]
+        if sorted(map(repr, got)) != sorted(map(repr, g)):
+            same = False
+        exp += (got if sorted(map(repr, got)) == sorted(map(repr, g)) else g)
+        pos += len(g)
+    if pos != len(ref_obs):
+        same = False
+    if not same:
         i = next((x for x in range(min(len(exp), len(ref_obs))) if exp[x] != ref_obs[x]), min(len(exp), len(ref_obs)))
         ctx.violation({'kind': 'framing', 'signature': 'whole-packet-delivery-wrong/%s' % name,
                        'detail': 'one packet per chunk: action %d is %r, expected %r (%d actions, expected %d)' % (
